@@ -102,6 +102,8 @@ def gen_task(rng, alphabet, nops, env, state):
             if not targets:
                 continue
             code.append(op("unpark", v=rng.choice(targets)))
+        elif k == "label_set":
+            code.append(op("label_set", v=rng.randrange(1, 9)))
         elif k in ("tls_get", "tls_set"):
             code.append(op(k, o=rng.randrange(3), v=rng.randrange(1, 9)))
         elif k in ("lz_fadd", "lz_load"):
@@ -111,7 +113,7 @@ def gen_task(rng, alphabet, nops, env, state):
             code.append(op(k, o=rng.randrange(2), v=rng.randrange(1, 4), w=w))
         elif k == "sonce_done":
             code.append(op(k, o=rng.randrange(2)))
-        elif k in ("tid", "name", "me"):
+        elif k in ("tid", "name", "me", "label_get"):
             code.append(op(k))
         elif k in ("barrier_wait",):
             if env.nbar == 0:
@@ -198,7 +200,7 @@ FAMILIES = {
     "once": (["call_once", "call_once", "is_completed", "load", "store"], dict(nonce=1, natom=1)),
     "tls": (["tls_get", "tls_set", "tls_set", "tls_set", "yield", "lock", "unlock", "load", "store"], dict(nmutex=1, natom=1)),
     "statics": (["lz_fadd", "lz_fadd", "lz_load", "sonce", "sonce", "sonce_done", "load", "store"], dict(natom=1)),
-    "ident": (["tid", "name", "me", "yield", "load", "store"], dict(natom=1)),
+    "ident": (["tid", "name", "me", "yield", "load", "store", "label_set", "label_set", "label_get", "label_get"], dict(natom=1)),
     "sem_unfair": (["acquire", "acquire", "try_acquire", "release", "release", "yield", "fadd", "load"], dict(nsem=1, natom=1)),
     "sem_fair": (["acquire", "acquire", "try_acquire", "release", "release", "yield", "fadd", "load"], dict(nsem=1, natom=1)),
     # with state observers that are not scheduling points (trace validation only)
